@@ -8,7 +8,11 @@ use crate::prob::*;
 use crate::state::*;
 use nalgebra::{DMatrix, DVector};
 
-pub const PROBS: [f64; 8] = [1e-3, 0.1, 0.5, 0.683, 0.9, 0.95, 0.99, 0.999];
+/// increasing; the last ones are legal probabilities within a few f32 ulp of 1 (1 - 5·2^-24, 1 - 2^-24):
+/// the tail mass (1-p)/2 must not be rounded to the scalar width before the quantile is taken
+pub const PROBS: [f64; 14] = [
+    1e-30, 1e-6, 1e-3, 0.1, 0.5, 0.683, 0.9, 0.95, 0.99, 0.999, 0.9999, 0.999999, 0.99999970197677612, 0.99999994039535522,
+];
 pub const BAD_PROBS: [f64; 6] = [0.0, 1.0, -1.0, 2.0, f64::NAN, f64::INFINITY];
 
 pub fn stats_case<T: Sc>(rng: &mut Rng, idx: usize, thorough: bool) -> FitCase<T> {
@@ -26,12 +30,25 @@ pub fn stats_case<T: Sc>(rng: &mut Rng, idx: usize, thorough: bool) -> FitCase<T
     let tr: Vec<T> = truth.iter().map(|v| T::of(*v)).collect();
     let phi = recipe.phi::<T>(&tr);
     let m = recipe.m();
-    let coef = DVector::from_iterator(m, (0..m).map(|_| T::of((rng.uniform(1.0, 3.0) * 16.0).round() / 16.0)));
+    // overall amplitude of the signal: the columns (dPhi/dalpha_k)·c of H scale with it, the columns
+    // Phi do not (badly column-scaled H^T H; tiny singular values of H that are NOT a rank defect)
+    let amp: f64 = if idx % 3 == 1 {
+        if T::WIDTH == 32 { *rng.pick(&[1e-4, 1e4]) } else { *rng.pick(&[1e-9, 1e-4, 1e4, 1e6]) }
+    } else {
+        1.0
+    };
+    let coef = DVector::from_iterator(m, (0..m).map(|_| T::of(amp * (rng.uniform(1.0, 3.0) * 16.0).round() / 16.0)));
     let col = &phi * coef;
-    let noise = *rng.pick(&[1e-3, 1e-2, 0.05]);
+    let noise = amp * *rng.pick(&[1e-3, 1e-2, 0.05]);
     let wkind = WKINDS[idx % WKINDS.len()];
-    let wkind = if wkind == WKind::Zeros { WKind::Positive } else { wkind };
+    // zero weights are legal: the degrees of freedom stay N - M - P
     let w = random_weights(rng, wkind, n, m);
+    // a user-chosen singular-value threshold concerns the linear sub-problem only
+    let eps: Option<T> = match idx % 5 {
+        1 => Some(T::of(1e-6)),
+        3 => Some(T::of(*rng.pick(&[1e-9, 1e-4, -1e-6]))),
+        _ => None,
+    };
     let mut y = DMatrix::from_element(n, 1, T::of(0.0));
     for i in 0..n {
         let sd = match &w {
@@ -48,7 +65,7 @@ pub fn stats_case<T: Sc>(rng: &mut Rng, idx: usize, thorough: bool) -> FitCase<T
         y,
         w: w.map(|w| w.iter().map(|v| T::of(*v)).collect()),
         wkind: wkind.name(),
-        eps: None,
+        eps,
         init,
         history: vec![],
         origin: "stats",
